@@ -36,6 +36,10 @@ func verifYield(point string) {
 	}
 }
 
+// VerifYield is also called at "serve.conn", the first thing the goroutine of
+// an accepted connection does, before the connection is registered with the
+// server.
+
 // VerifNewConn, when set, is told about every Conn the server creates, before
 // its first read or write.
 var VerifNewConn func(c *Conn)
